@@ -204,7 +204,10 @@ func scC19(r *Run) {
 }
 
 func init() {
-	register(&PropDef{ID: "C16", Quick: 5000, Thorough: 400000, Profiles: []ProfileDef{{Name: "seq", Share: 1, Sc: scC16}}})
+	register(&PropDef{ID: "C16", Quick: 5400, Thorough: 432000, Profiles: []ProfileDef{
+		{Name: "seq", Share: 25, Sc: scC16},
+		{Name: "index-burst", Share: 2, Sc: scMuxBurst("index")},
+	}})
 	register(&PropDef{ID: "C19", Quick: 3000, Thorough: 100000, Profiles: []ProfileDef{{Name: "seq", Share: 1, Sc: scC19}}})
 }
 
